@@ -148,7 +148,14 @@ def binder(m, ctx, r, item):
     n = ctx["n"]
     inst = ctx["inst"]
     rp = inst.rp
-    meta = rp.prog["cbs"].get(r["c"].split("/", 1)[1])
+    pname, short = r["c"].split("/", 1)
+    meta = None
+    for rp_ in m.ref.progs:
+        # (an inherited callback is described by the program that defines it)
+        if rp_.name == pname:
+            meta = rp_.prog["cbs"].get(short)
+    if meta is None:
+        meta = rp.prog["cbs"].get(short)
     if meta is None:
         return
     ev, src, dst, view = item["ev"], item["src"], item["dst"], item["view"]
@@ -242,12 +249,23 @@ def make_program(rnd, n_pos, name="M0", module="simgen_m0", pyname=None, collide
         if rnd.random() < 0.45:
             role = rnd.choice(["machine", "machine", "model", "L0"])
             prog["cbs"][f"{role}.{nm}"] = {"group": g, "sig": gen_sig(rnd, n_pos, collide and rnd.random() < 0.5)}
+    for st in prog["states"]:
+        if rnd.random() < 0.3:
+            # a callback attached with the decorator syntax (``@s1.enter`` / ``@s1.exit``): the spec holds
+            # the function object itself, not a name
+            g = rnd.choice(["enter", "exit"])
+            nm = f"{'en' if g == 'enter' else 'ex'}_{k}"
+            k += 1
+            st.setdefault(g, []).append(nm)
+            prog["cbs"][f"machine.{nm}"] = {"group": g, "sig": gen_sig(rnd, n_pos), "style": "decorator"}
     if not prog["cbs"]:
         prog["cbs"]["machine.on_transition"] = {"group": "on", "sig": gen_sig(rnd, n_pos)}
     # callables other than plain methods: functions wrapped by one shared functools.wraps decorator,
     # functools.partial objects stored on a listener
     for c, m in prog["cbs"].items():
         r = rnd.random()
+        if m.get("style") == "decorator":
+            continue
         if r < 0.25:
             m["wrapped"] = True
         elif r < 0.4 and c.startswith("L0."):
@@ -306,6 +324,49 @@ def lookalike(rnd, prog, n_pos=0):
     return p2, changed
 
 
+def subclass_twin(rnd, prog, n_pos):
+    """A subclass that declares nothing new but OVERRIDES some machine-defined callbacks -- among them
+    decorator-declared ones -- with methods of another signature: instances of the subclass call the
+    overriding methods, bound to the instance, with the parameters THEY declare."""
+    s = {"name": "N0", "module": "simgen_n0", "pyname": "SubN0", "base_name": render_pyname(prog),
+         "base_module": prog["module"], "model": dict(prog["model"]), "listeners": list(prog["listeners"]),
+         "states": [dict(x, inherited=True) for x in prog["states"]],
+         "trans": [dict(t, inherited=True) for t in prog["trans"]],
+         "events": list(prog["events"]), "cbs": {}}
+    changed = 0
+    for c, m in sorted(prog["cbs"].items()):
+        if not c.startswith("machine."):
+            s["cbs"][c] = copy.deepcopy(m)
+            continue
+        plain = not any(m.get(f) for f in ("wrapped", "partial", "noself"))
+        if plain and rnd.random() < (0.8 if m.get("style") == "decorator" else 0.3):
+            m2 = {"group": m["group"], "sig": gen_sig(rnd, n_pos)}
+            if m.get("async"):
+                m2["async"] = True
+            if m["group"] == "enter":
+                for q in m2["sig"]:
+                    if q["kind"] in ("po", "pk") and q["name"] not in BUILTINS:
+                        q.setdefault("default", None)
+                seen_default = False
+                for q in m2["sig"]:
+                    if q["kind"] in ("po", "pk"):
+                        if "default" in q:
+                            seen_default = True
+                        elif seen_default:
+                            q["default"] = None
+            s["cbs"][c] = m2  # rendered in the subclass as a plain method of the same name
+            changed += 1
+        else:
+            s["cbs"][c] = dict(copy.deepcopy(m), inherited=True, full=f"{prog['name']}/{c}")
+    return s, changed
+
+
+def render_pyname(prog):
+    from ..render import pyname
+
+    return pyname(prog)
+
+
 @register
 class C07(Campaign):
     pid = "C07"
@@ -341,11 +402,18 @@ class C07(Campaign):
         prog = make_program(rnd, n_pos, collide=collide)
         programs = [prog]
         twin = None
-        if rnd.random() < 0.4:
+        r_tw = rnd.random()
+        if r_tw < 0.4:
             twin, changed = lookalike(rnd, prog, n_pos)
             if changed:
                 prog["pyname"] = "Mx"
                 twin["pyname"] = "Mx"
+                programs.append(twin)
+            else:
+                twin = None
+        elif r_tw < 0.55:
+            twin, changed = subclass_twin(rnd, prog, n_pos)
+            if changed:
                 programs.append(twin)
             else:
                 twin = None
@@ -375,6 +443,10 @@ class C07(Campaign):
         for p in programs:
             is_async = any(m.get("async") for m in p["cbs"].values())
             cands = gen.choose_effectful(rnd, p, rnd.randint(0, 2), ("before", "on", "after", "enter", "exit"))
+            if p.get("base_module"):
+                # a subclass instance also runs the base class's (inherited) sending callbacks: a second
+                # sender in the same group would make the queue order depend on the order inside the group
+                cands = []
             for c in cands:
                 gen.ensure_machine_param(p, c)
                 sig = p["cbs"][c]["sig"]
